@@ -1,5 +1,8 @@
 """Translator for C06: pins the source text of the three regular expressions the
-hand-written scanners of lean/FordModel/Use.lean mirror (USE_RE, ONLY_RE, RENAME_RE).
+hand-written scanners of lean/FordModel/Use.lean mirror (USE_RE, ONLY_RE, RENAME_RE), and the
+string tables of the accessibility mechanism: the list of `permission` values that
+`FortranModule._cleanup` exports, and the keyword lists whose members overwrite the single
+`permission` slot of a declared entity (`line_to_variables`, `process_attribs`).
 
 Writes lean/FordModel/Generated/C06.lean; Props/C06.lean proves (by `decide`) that the
 generated constants are the patterns the scanners were written for, so an edit of one of
@@ -29,6 +32,77 @@ def lean_str(s: str) -> str:
     return '"' + "".join(out) + '"'
 
 
+def lean_chars(s: str) -> str:
+    for c in s:
+        if not (c.isalnum() or c == "_") or ord(c) > 126:
+            raise LookupError(f"unexpected character in keyword {s!r}")
+    return "[" + ", ".join(f"'{c}'" for c in s) + "]"
+
+
+def _str_list(node):
+    import ast
+
+    if isinstance(node, (ast.List, ast.Tuple)) and node.elts and all(
+            isinstance(e, ast.Constant) and isinstance(e.value, str) for e in node.elts):
+        return [e.value for e in node.elts]
+    return None
+
+
+def _find_def(tree, path):
+    """the (nested) function / class definition named by `path`"""
+    import ast
+
+    node = tree
+    for name in path:
+        for ch in ast.walk(node):
+            if ch is not node and isinstance(ch, (ast.FunctionDef, ast.ClassDef)) and ch.name == name:
+                node = ch
+                break
+        else:
+            raise LookupError(f"{'.'.join(path)}: no definition of {name!r} any more")
+    return node
+
+
+def access_tables(source: str):
+    """(exported permissions, [keyword list of every `if x in [...]: <...>permission = x`])"""
+    import ast
+
+    tree = ast.parse(source)
+    # 1. FortranModule._cleanup.should_be_public: `return item.permission in [<strings>]`
+    f = _find_def(tree, ["FortranModule", "_cleanup", "should_be_public"])
+    body = [n for n in f.body if not (isinstance(n, ast.Expr) and isinstance(n.value, ast.Constant))]
+    exported = None
+    if len(body) == 1 and isinstance(body[0], ast.Return) and isinstance(body[0].value, ast.Compare):
+        c = body[0].value
+        if (len(c.ops) == 1 and isinstance(c.ops[0], ast.In) and isinstance(c.left, ast.Attribute)
+                and c.left.attr == "permission" and isinstance(c.left.value, ast.Name)
+                and c.left.value.id == f.args.args[0].arg):
+            exported = _str_list(c.comparators[0])
+    if exported is None:
+        raise LookupError("FortranModule._cleanup.should_be_public is no longer `return item.permission in [...]`")
+    # 2. every place that writes an access keyword into the slot of a declared entity
+    writes = []
+    for path in (["line_to_variables"], ["FortranCodeUnit", "process_attribs"]):
+        fn = _find_def(tree, path)
+        found = 0
+        for n in ast.walk(fn):
+            if not (isinstance(n, ast.If) and isinstance(n.test, ast.Compare) and len(n.test.ops) == 1
+                    and isinstance(n.test.ops[0], ast.In) and isinstance(n.test.left, ast.Name)):
+                continue
+            kws = _str_list(n.test.comparators[0])
+            if kws is None or len(n.body) != 1 or not isinstance(n.body[0], ast.Assign):
+                continue
+            a = n.body[0]
+            tgt = a.targets[0]
+            tname = tgt.attr if isinstance(tgt, ast.Attribute) else tgt.id if isinstance(tgt, ast.Name) else ""
+            if tname == "permission" and isinstance(a.value, ast.Name) and a.value.id == n.test.left.id:
+                writes.append((".".join(path), kws))
+                found += 1
+        if not found:
+            raise LookupError(f"{'.'.join(path)}: no `if x in [...]: permission = x` any more")
+    return exported, writes
+
+
 def translate(common):
     common.import_ford()
     import ford.sourceform as sf
@@ -52,6 +126,13 @@ def translate(common):
         name = attr.split("_")[0].lower() + "Re"
         lines.append(f"def {name}Src : String := {lean_str(pat)}")
         lines.append(f"def {name}Flags : Nat := {flags}")
+    exported, writes = access_tables(Path(sf.__file__).read_text())
+    lines += ["", "/-- `FortranModule._cleanup.should_be_public`: `item.permission in <this list>` -/",
+              "def exportedPermissions : List (List Char) := [" + ", ".join(lean_chars(w) for w in exported) + "]",
+              "", "/-- keyword lists of the statements `if x in <list>: ...permission = x` in "
+              + ", ".join(sorted({w for w, _ in writes})) + " -/",
+              "def slotKeywordLists : List (List (List Char)) := ["
+              + ",\n  ".join("[" + ", ".join(lean_chars(k) for k in kws) + "]" for _, kws in writes) + "]"]
     lines += ["", "end Ford.Generated.C06", ""]
     common.write_if_changed(common.LEAN / "FordModel" / "Generated" / "C06.lean", "\n".join(lines))
-    return {a: (p, f) for a, p, f in items}
+    return {"regex": {a: (p, f) for a, p, f in items}, "exported": exported, "slot_writes": writes}
